@@ -24,7 +24,10 @@ type c15Case struct {
 
 func (c c15Case) assignsInheritedName() bool { return c.wrap == 0 && c.layout == 1 && !c.split }
 
-func (c c15Case) fieldOf(cl string) string { return "f" + strings.ToLower(cl) }
+func (c c15Case) fieldOf(cl string) string { return "f" + c15Slug(cl) }
+
+// c15Slug turns a class name (possibly dotted: ns._A, g.2d.A) into something usable inside a field or file name
+func c15Slug(cl string) string { return strings.ToLower(strings.ReplaceAll(cl, ".", "")) }
 
 // expected members of class 0 (transitively through parents; cycle-safe)
 func (c c15Case) expected() map[string]bool {
@@ -58,7 +61,7 @@ func (c c15Case) expected() map[string]bool {
 				}
 				for _, p := range c.parents[k] {
 					if p == n {
-						out[c.fieldOf(n)+"_"+strings.ToLower(m)] = true
+						out[c.fieldOf(n)+"_"+c15Slug(m)] = true
 					}
 				}
 			}
@@ -83,23 +86,23 @@ func (c c15Case) build() (files map[string]string, mainFile string, access strin
 			ln := 0
 			for _, p := range c.parents[i] {
 				if p != n && !(c.layout == 5 && i == 0) {
-					sb.WriteString("---@class " + p + "\n---@field " + c.fieldOf(p) + "_" + strings.ToLower(n) + " number\n\n")
-					fieldLines[c.fieldOf(p)+"_"+strings.ToLower(n)] = [2]interface{}{"class_" + strings.ToLower(n) + ".lua", ln + 1}
+					sb.WriteString("---@class " + p + "\n---@field " + c.fieldOf(p) + "_" + c15Slug(n) + " number\n\n")
+					fieldLines[c.fieldOf(p)+"_"+c15Slug(n)] = [2]interface{}{"class_" + c15Slug(n) + ".lua", ln + 1}
 					ln += 3
 				}
 			}
 			sb.WriteString(h + "\n---@field " + c.fieldOf(n) + " number\n")
-			fieldLines[c.fieldOf(n)] = [2]interface{}{"class_" + strings.ToLower(n) + ".lua", ln + 1}
-			perClass["class_"+strings.ToLower(n)+".lua"] = sb.String()
+			fieldLines[c.fieldOf(n)] = [2]interface{}{"class_" + c15Slug(n) + ".lua", ln + 1}
+			perClass["class_"+c15Slug(n)+".lua"] = sb.String()
 			continue
 		}
 		if c.layout == 2 || c.layout == 3 {
-			perClass["class_"+strings.ToLower(n)+".lua"] = h + "\n---@field " + c.fieldOf(n) + " number\n"
-			fieldLines[c.fieldOf(n)] = [2]interface{}{"class_" + strings.ToLower(n) + ".lua", 1}
+			perClass["class_"+c15Slug(n)+".lua"] = h + "\n---@field " + c.fieldOf(n) + " number\n"
+			fieldLines[c.fieldOf(n)] = [2]interface{}{"class_" + c15Slug(n) + ".lua", 1}
 			if c.layout == 3 {
 				// the second part of the class lives in another directory and repeats neither parents nor fields
-				perClass["part2/class_"+strings.ToLower(n)+"_more.lua"] = "---@class " + n + "\n---@field " + c.fieldOf(n) + "2 number\n"
-				fieldLines[c.fieldOf(n)+"2"] = [2]interface{}{"part2/class_" + strings.ToLower(n) + "_more.lua", 1}
+				perClass["part2/class_"+c15Slug(n)+"_more.lua"] = "---@class " + n + "\n---@field " + c.fieldOf(n) + "2 number\n"
+				fieldLines[c.fieldOf(n)+"2"] = [2]interface{}{"part2/class_" + c15Slug(n) + "_more.lua", 1}
 			}
 			continue
 		}
@@ -229,6 +232,21 @@ func c15Cases(tier string) []c15Case {
 			}
 		}
 	}
+	// dotted class names, also with segments that start with '_' or a digit (the annotation lexer takes '.', '_', letters
+	// and digits alike after the first character): every graph x alias none/direct x plain/array wrapper x every layout
+	for _, names := range [][]string{{"ui.A", "ui.B"}, {"ui._A", "ui._B"}, {"g.2d.A", "g.2d.B"}, {"_A", "_B"}} {
+		for _, ps := range graphs(names) {
+			for alias := 0; alias < 2; alias++ {
+				for wrap := 0; wrap < 2; wrap++ {
+					for _, split := range []bool{false, true} {
+						for layout := 0; layout < 6; layout++ {
+							out = append(out, c15Case{names, ps, alias, wrap, split, layout})
+						}
+					}
+				}
+			}
+		}
+	}
 	// three classes: every graph (cycles that do not contain the root included) with the plain shape in every layout;
 	// thorough: crossed with the alias shapes and wrappers as well
 	three := []string{"A", "B", "C"}
@@ -341,7 +359,7 @@ func c15Space(tier string) *core.Space {
 			for _, n := range c.classes {
 				cand := []string{c.fieldOf(n), c.fieldOf(n) + "2"}
 				for _, m := range c.classes {
-					cand = append(cand, c.fieldOf(n)+"_"+strings.ToLower(m))
+					cand = append(cand, c.fieldOf(n)+"_"+c15Slug(m))
 				}
 				for _, f := range cand {
 					if labels[f] && !want[f] && c.alias < 3 {
@@ -417,7 +435,7 @@ func c15Space(tier string) *core.Space {
 					if assignedField != "" {
 						want2[assignedField] = true
 					}
-					vf := "class_" + strings.ToLower(victim) + ".lua"
+					vf := "class_" + c15Slug(victim) + ".lua"
 					os.Remove(filepath.Join(root, vf))
 					s.Watched([]drv.FileEvent{{Rel: vf, Type: 3}})
 					s.ChangeFull(mainFile, buf)
